@@ -8,21 +8,16 @@
   All three stages of the plan are closed: ATOM level, TOKEN-STREAM level and TREE level
   (by induction over arbitrary values; no size bounds).  Helper lemmas are in Proofs/.
 
-  FULL statement of the first sentence of the property:
+  FULL statement of the first sentence of the property, proved as `classic_roundtrip`:
       ∀ ver v, IR.assemble (IR.disassemble ver v) = .ok v
-  It is FALSE for the code as it is (`classic_roundtrip_full_false`): an atom printed as a quoted
-  string keeps its backslashes unescaped while the assembler reads a backslash as an escape.  The
-  proved theorem `classic_roundtrip_partial` has exactly that class (`IR.backslashQuoted`) as
-  hypothesis, and `classic_defect_class_exact` shows the class is not wider than the defect.
-  `classic_roundtrip_with_fix` proves the full statement for the writer with the proposed one-line
-  repair (`Bytes::to_formal_string` passing `full_repr = true`).
-
-  WHEN THE REPAIR IS COMMITTED to /repo: set `IR.codeFullRepr := true` in Text/IR.lean; delete
-  `classic_roundtrip_counterexample`, `classic_roundtrip_full_false`, `classic_defect_class_exact`,
-  `classic_atom_roundtrip_iff`, `model_is_unrepaired` (they are about the unrepaired writer and stop
-  checking, as they should); restate `classic_roundtrip_partial` without hypothesis as
-  `theorem classic_roundtrip (ver v) : IR.assemble (IR.disassemble ver v) = .ok v := classic_roundtrip_with_fix ver v`;
-  mark the finding `fixed` in known_findings.json.
+  It was FALSE for the code as found: an atom printed as a quoted string kept its backslashes
+  unescaped while the assembler reads a backslash as an escape (finding C09-classic-backslash).
+  That defect is repaired in /repo (fix: 1c2814c, `Bytes::to_formal_string` passes
+  `full_repr = true`); the model constant `IR.codeFullRepr` mirrors the repaired code
+  (`model_is_repaired`) and is tied to it by the correspondence run (text of every atom class incl.
+  backslash-containing printable strings).  The theorems about the UNREPAIRED writer
+  (`IR.disassembleWith false`) are kept: they state exactly what a regression of that repair would
+  break (`classic_roundtrip_unrepaired_partial`, `…_counterexample`, `…_defect_class_exact`).
 
   The third sentence (command-line text denotes library bytes) is proved for compilation results
   without bare symbol atoms (`cli_text_denotes_library_bytes_partial`); a quoted bareword constant that
@@ -42,50 +37,45 @@ open Rich
 
 -- ── classic pair ────────────────────────────────────────────────────────────────────────────────
 
-/-- For every operator-set version and every CLVM value none of whose atoms is in the defect class,
-    the disassembled text assembles to the identical value (tree level, unbounded). -/
-theorem classic_roundtrip_partial (ver : Nat) (v : Val) (h : IR.noBackslashQuoted v = true) :
+/-- THE FIRST SENTENCE OF THE PROPERTY, in full: for every operator-set version and every CLVM value
+    (no size bound, no hypothesis) the disassembled text assembles to the identical value. -/
+theorem classic_roundtrip (ver : Nat) (v : Val) :
     IR.assemble (IR.disassemble ver v) = .ok v :=
-  IR.assemble_disassemble ver v h
+  IR.assemble_disassembleWith IR.codeFullRepr ver v (fun h => absurd h (by decide))
 
-/-- witness of the defect on the unchanged code: bytes `61 5c 62` print as `"a\b"` and assemble to `61 62`. -/
-theorem classic_roundtrip_counterexample :
-    IR.disassemble 2 (.atom [0x61, 0x5c, 0x62]) = [0x22, 0x61, 0x5c, 0x62, 0x22] ∧
-    IR.assemble (IR.disassemble 2 (.atom [0x61, 0x5c, 0x62])) = .ok (.atom [0x61, 0x62]) := by
+/-- the model mirrors the code AS IT IS NOW (after fix 1c2814c): the writer escapes backslashes. -/
+theorem model_is_repaired : IR.codeFullRepr = true := rfl
+
+/-- the former witness of the defect now round-trips: bytes `61 5c 62` print as `"a\\b"`. -/
+theorem classic_roundtrip_backslash_repaired :
+    IR.disassemble 2 (.atom [0x61, 0x5c, 0x62]) = [0x22, 0x61, 0x5c, 0x5c, 0x62, 0x22] ∧
+    IR.assemble (IR.disassemble 2 (.atom [0x61, 0x5c, 0x62])) = .ok (.atom [0x61, 0x5c, 0x62]) := by
   decide
 
-/-- THE PROPOSED REPAIR IS SUFFICIENT: with `to_formal_string` passing `full_repr = true` (a backslash
-    is written as two backslashes), the full statement holds for every version and every value, no hypothesis. -/
+/-- either setting of the writer's flag: with the repair for every value (this is what
+    `classic_roundtrip` instantiates). -/
 theorem classic_roundtrip_with_fix (ver : Nat) (v : Val) :
     IR.assemble (IR.disassembleWith true ver v) = .ok v :=
   IR.assemble_disassembleWith true ver v (fun h => absurd h (by decide))
 
-/-- the model mirrors the code AS IT IS: the writer does not escape backslashes. -/
-theorem model_is_unrepaired : IR.codeFullRepr = false := rfl
+-- what a regression of the repair would break (the UNREPAIRED writer, `full_repr = false`)
 
-/-- hence the full statement does not hold for the code as it is. -/
-theorem classic_roundtrip_full_false : ¬ (∀ (ver : Nat) (v : Val), IR.assemble (IR.disassemble ver v) = .ok v) := by
-  intro h
-  have := h 2 (.atom [0x61, 0x5c, 0x62])
-  rw [classic_roundtrip_counterexample.2] at this
-  exact absurd this (by decide)
+/-- the unrepaired writer round-trips every value none of whose atoms is in the defect class. -/
+theorem classic_roundtrip_unrepaired_partial (ver : Nat) (v : Val) (h : IR.noBackslashQuoted v = true) :
+    IR.assemble (IR.disassembleWith false ver v) = .ok v :=
+  IR.assemble_disassembleWith false ver v (fun _ => h)
 
-/-- the hypothesis of `classic_roundtrip_partial` excludes nothing but failures: EVERY atom of the
-    defect class (printed as a quoted string, contains a backslash) fails to round-trip. -/
-theorem classic_defect_class_exact (ver : Nat) (b : Bytes) (h : IR.backslashQuoted b = true) :
-    IR.assemble (IR.disassemble ver (.atom b)) ≠ .ok (.atom b) :=
+/-- witness of the former defect: bytes `61 5c 62` printed as `"a\b"` and assembled to `61 62`. -/
+theorem classic_roundtrip_unrepaired_counterexample :
+    IR.disassembleWith false 2 (.atom [0x61, 0x5c, 0x62]) = [0x22, 0x61, 0x5c, 0x62, 0x22] ∧
+    IR.assemble (IR.disassembleWith false 2 (.atom [0x61, 0x5c, 0x62])) = .ok (.atom [0x61, 0x62]) := by
+  decide
+
+/-- EVERY atom of the defect class (printed as a quoted string, contains a backslash) fails to
+    round-trip through the unrepaired writer: the repair is necessary for exactly that class. -/
+theorem classic_unrepaired_defect_class_exact (ver : Nat) (b : Bytes) (h : IR.backslashQuoted b = true) :
+    IR.assemble (IR.disassembleWith false ver (.atom b)) ≠ .ok (.atom b) :=
   IR.backslash_atom_fails ver b h
-
-/-- so for single atoms the round trip holds exactly outside the defect class. -/
-theorem classic_atom_roundtrip_iff (ver : Nat) (b : Bytes) :
-    IR.assemble (IR.disassemble ver (.atom b)) = .ok (.atom b) ↔ IR.backslashQuoted b = false := by
-  constructor
-  · intro h
-    cases hb : IR.backslashQuoted b with
-    | false => rfl
-    | true => exact absurd h (classic_defect_class_exact ver b hb)
-  · intro h
-    exact classic_roundtrip_partial ver (.atom b) (by simp [IR.noBackslashQuoted, h])
 
 /-- the explicit stack machine of `ir/writer.rs` writes exactly the text the theorems are about. -/
 theorem writer_machine_eq (ir : IR) (fuel : Nat) (h : IR.machineFuel ir ≤ fuel) :
